@@ -35,6 +35,12 @@ func init() {
 
 // ---- C08-a ----
 
+func init() {
+	register("C12",
+		"C12-k = C08-b for its restart clause: manager.New derives the next stream id from (*index.Reader).MaxStreamID() of the index files it finds as a maximum over ALL of them (monotone update inside an unbroken range over the whole list). Ids of rewritten streams live on in newer files, so the newest file does not know the maximum; after a restart with a too small next id the streams above it are not re-evaluated, marks are clipped, and the next import hands out ids that completed imports already used.",
+		func(p *Prog, r *Res) { ruleNextIDMax(p, r, "C12-k next-id-is-maximum") })
+}
+
 func ruleC08FreshID(p *Prog, r *Res) {
 	const rule = "C08-a fresh-id-unique"
 	r.Rule(rule + ": a fresh id is followed by an increment of the counter before the counter is read again")
@@ -201,8 +207,9 @@ func ruleC08FreshID(p *Prog, r *Res) {
 
 // ---- C08-b ----
 
-func ruleC08NextIDMax(p *Prog, r *Res) {
-	const rule = "C08-b next-id-is-maximum"
+func ruleC08NextIDMax(p *Prog, r *Res) { ruleNextIDMax(p, r, "C08-b next-id-is-maximum") }
+
+func ruleNextIDMax(p *Prog, r *Res, rule string) {
 	r.Rule(rule + ": values derived from Reader.MaxStreamID() become the next id only as a maximum over the whole reader list")
 	maxM := p.Method("index", "Reader", "MaxStreamID")
 	if maxM == nil {
